@@ -205,6 +205,9 @@ func (s *Server) serve(ctx context.Context, listener net.Listener, handler Modbu
 				if err := conn.conn.Close(); err != nil {
 					conn.onErrorFunc(fmt.Errorf("failed to close handler connection, err: %w", err))
 				}
+				// connection has ended, nothing is being handled anymore. Handling that ended with failed write or with
+				// panic leaves the flag set and Shutdown (which holds the mutex that trackConn needs) would wait for it forever.
+				conn.isBeingHandled.Store(false)
 				s.trackConn(c, false)
 				if s.OnCloseConnFunc != nil {
 					s.OnCloseConnFunc(ctx, conn.conn.RemoteAddr(), s.isShutdown.Load())
